@@ -57,6 +57,7 @@ def spec (_ : Unit) (op : String) (obs : String) : String :=
             | some s => firstIdx addrs s.addr == some i
             | none => false)
         if !specTrustingSound inp valid accepted then "specfail C03/trusting-sound accepted without 1/3 of valid trusted power"
+        else if !specTrustingExact inp valid accepted then "specfail C03/trusting-exact verdict differs from (distinct trusted signing power > 1/3)"
         else "specok"
     | _, _, _, _, _ => "specfail C03/unparsed"
   | "reset" :: _ => "specskip"
